@@ -10,6 +10,7 @@ def gen_case(rng):
     lines = ["alloc a%d" % k for k in range(n)]
     tmo = {k: -1 for k in range(n)}
     stopped = {}
+    vnow, deadlines = 0, []      # virtual clock of the script and every deadline an operation may have got
     for _ in range(rng.randrange(4, 45)):
         k = rng.randrange(n)
         r = rng.random()
@@ -21,6 +22,8 @@ def gen_case(rng):
             stopped[k] += 1
         if r < 0.22:
             lines.append("begin a%d%s" % (k, " r" if rng.random() < 0.5 else ""))
+            if tmo[k] > 0:
+                deadlines.append(vnow + tmo[k])
         elif r < 0.40:
             lines.append("finish a%d %d" % (k, rng.choice([0, 0, 0, 19, 7])))
         elif r < 0.50:
@@ -36,15 +39,27 @@ def gen_case(rng):
             #  clock does not control: not generated)
             if tmo[k] == 0:
                 continue
-            lines.append("sleep a%d %d" % (k, rng.choice([1000, 1000, 3000, -1])))
+            ms = rng.choice([1000, 1000, 3000, -1])
+            lines.append("sleep a%d %d" % (k, ms))
+            for d in (ms, tmo[k]):
+                if d > 0:
+                    deadlines.append(vnow + d)
         elif r < 0.90:
-            # keep well away from the deadlines in use (1000, 3000, 5000 and sums thereof in 500 steps)
-            lines.append("advance %d" % rng.choice([400, 1200, 2500, 4000, 6000]))
+            # never land within 150 ms of a deadline (the virtual clock runs on top of real time: at equality the
+            # outcome depends on the milliseconds the script itself took)
+            ok = [d for d in (400, 1200, 2500, 4000, 6000) if all(abs(vnow + d - dl) >= 150 for dl in deadlines)]
+            if not ok:
+                continue
+            d = rng.choice(ok)
+            vnow += d
+            lines.append("advance %d" % d)
         elif r < 0.94:
             lines.append("stop a%d" % k)
             stopped.setdefault(k, 0)
         else:
             lines.append("begin a%d" % k)
+            if tmo[k] > 0:
+                deadlines.append(vnow + tmo[k])
     return lines + drain(n)
 
 
